@@ -282,6 +282,14 @@ func c05Sessions(tier string) [][]string {
 	add("for self = 3 {println(self)}")
 	add("func rr(n){rr(n + 1)}", "for i = 3 {if i == 1 {rr(0)}}", "i")
 	add("func rr(n){rr(n + 1)}", "i = 10; for i = 3 {for j = 2 {if i == k1 {rr(0)}}}", "[i, j]")
+	// seventh round: the text of errors (the type of a register is INTEGER for the program)
+	for _, body := range []string{"\"t\" + n", "\"ab\" - n", "[1] - n", "n + [1]", "n + \"t\"", "{\"k\": 1} + n", "n + {\"k\": 1}", "n[0]", "n.k", "true[n]", "x[n]", "n[1:2]", "n(1)",
+		"n[0] = 2", "n.k = 2", "n[1 / 0] = 2", "del(n[0])", "del(n.k)", "first(n)", "rest(n)", "-[n] + n", "!n", "n && true", "if n {1}", "for n == 1.5 {}", "n[n]", "[n][n](n)", "n = n[0]"} {
+		add("func f(n){"+body+"}", "f(a)")
+	}
+	add("func f(n){n}", "\"t\" + f(a)", "len(f(a))", "f(a)[0]", "f(a)(2)")
+	add("func f(n){if true {n}}", "\"t\" + f(a)")
+	add("for i = 2 {println(catch(len(i)), catch(i[0]), catch(\"t\" - i), catch(i(i)), catch(del(i[0])))}")
 	return out
 }
 
